@@ -225,6 +225,48 @@ Proof.
     destruct Sby as [->|(Db & Dx' & _)]; [|tauto]. rewrite (Fb Hna). reflexivity.
 Qed.
 
+(* ---------- the escape-sequence writer is a fold over bytes ---------- *)
+Lemma tty_write_app ctx b1 b2 : forall st ts,
+  tty_write ctx st ts (b1 ++ b2) =
+  match tty_write ctx st ts b1 with
+  | Ok (st1, ts1) => tty_write ctx st1 ts1 b2
+  | other => other
+  end.
+Proof.
+  induction b1 as [|b t IH]; intros st ts; cbn [app tty_write]; [reflexivity|].
+  destruct (tok_feed (cmd_dfa ctx) ts b) as [[ts1 items]| | |]; auto.
+  destruct (tty_apply ctx st items) as [st1| | |]; auto.
+Qed.
+
+Lemma tty_chunks_concat ctx chunks : forall st ts,
+  tty_chunks ctx st ts chunks = tty_write ctx st ts (concat chunks).
+Proof.
+  induction chunks as [|c t IH]; intros st ts; cbn [tty_chunks concat]; [reflexivity|].
+  rewrite tty_write_app. destruct (tty_write ctx st ts c) as [[st1 ts1]| | |]; auto.
+Qed.
+
+Lemma tty_apply_dead ctx items : forall st st', Dead st -> tty_apply ctx st items = Ok st' -> Frozen st st'.
+Proof.
+  induction items as [|it t IH]; intros st st' Hd; cbn [tty_apply].
+  - intros [= <-]. repeat split; auto.
+  - destruct it as [ch|seq|raw].
+    + destruct (put_char ctx st ch) as [[st1 f]| | |] eqn:H1; try discriminate.
+      intros H. pose proof (put_cell_dead _ _ _ _ _ Hd H1) as F1.
+      eapply frozen_trans; [exact F1|]. eapply IH; [apply F1|exact H].
+    + intros H. apply (IH (set_face st (sgr_lookup (sgr_tab ctx) seq (w_face st))) st' Hd H).
+    + apply IH, Hd.
+Qed.
+
+Lemma tty_write_dead ctx bytes : forall st ts st' ts', Dead st -> tty_write ctx st ts bytes = Ok (st', ts') -> Frozen st st'.
+Proof.
+  induction bytes as [|b t IH]; intros st ts st' ts' Hd; cbn [tty_write].
+  - intros [= <- <-]. repeat split; auto.
+  - destruct (tok_feed (cmd_dfa ctx) ts b) as [[ts1 items]| | |]; try discriminate.
+    destruct (tty_apply ctx st items) as [st1| | |] eqn:H1; try discriminate.
+    intros H. pose proof (tty_apply_dead _ _ _ _ Hd H1) as F1.
+    eapply frozen_trans; [exact F1|]. eapply IH; [apply F1|exact H].
+Qed.
+
 (* ---------- whole client programs: partitions of every write may differ ---------- *)
 Lemma wop_step_dead ctx st o st' b : Dead st -> wop_step ctx st o = Ok (st', b) -> Frozen st st'.
 Proof.
@@ -236,6 +278,9 @@ Proof.
   - apply write_chunks_dead. exact Hd.
   - destruct (write_chunks ctx (set_dec st u0) chunks) as [[st1 f]| | |] eqn:H1; try discriminate.
     intros [= <- <-]. exact (write_chunks_dead _ _ _ _ _ (Hd : Dead (set_dec st u0)) H1).
+  - rewrite tty_chunks_concat.
+    destruct (tty_write ctx st (t0 (cmd_dfa ctx)) (concat chunks)) as [[st1 ts1]| | |] eqn:H1; try discriminate.
+    intros [= <- <-]. eapply tty_write_dead; [exact Hd|exact H1].
 Qed.
 
 Lemma wops_run_dead ctx ops : forall st st' bs, Dead st -> wops_run ctx st ops = Ok (st', bs) -> Frozen st st'.
@@ -286,6 +331,9 @@ Proof.
     rewrite Hx in H1. rewrite Hy in H2. injection H1 as <- <-. injection H2 as <- <-. split.
     + apply sim_set_dec, Sxy.
     + exact Al.
+  - (* OWriteT / OWriteT *)
+    injection Hm as Hc. cbn [wop_step] in H1, H2. rewrite !tty_chunks_concat in H1, H2. rewrite Hc in H1.
+    rewrite H1 in H2. injection H2 as <- <-. split; [apply sim_refl|reflexivity].
 Qed.
 
 Theorem program_chunking ctx ops1 : forall ops2 s1 s2,
